@@ -863,10 +863,12 @@ class SCFG2ASTTransformer:
         if type(block) is PythonASTBlock:
             if len(block.jump_targets) == 2:
                 test: ast.expr
-                if type(block.tree[-1]) in (ast.Name, ast.Compare):
-                    test = cast(ast.expr, block.tree[-1])
+                # The test is either an expression or, for the header of a
+                # for-loop, an expression statement.
+                if isinstance(block.tree[-1], ast.Expr):
+                    test = block.tree[-1].value
                 else:
-                    test = cast(ast.Expr, block.tree[-1]).value
+                    test = cast(ast.expr, block.tree[-1])
                 body: list[ast.stmt] = cast(
                     list[ast.stmt],
                     self.codegen(self.lookup(block.jump_targets[0])),
